@@ -43,6 +43,21 @@ pub mod verif_env {
         Ok((f.0)())
     }
 
+    /// Canary for a Kani 0.68 code-generation issue: a constant allocation (e.g. the zero capacity read by
+    /// `Vec::new()`) is resolved to an already generated static with identical initial bytes, so a write
+    /// to that static changes the "constant". Harnesses call this at their end; a failure means the run
+    /// was affected and its verdict must not be trusted.
+    pub fn canary() {
+        let a: Vec<u64> = Vec::new();
+        let b: Vec<u8> = Vec::new();
+        let c = String::new();
+        let d: Vec<(usize, usize)> = Vec::new();
+        assert!(
+            a.capacity() == 0 && b.capacity() == 0 && c.capacity() == 0 && d.capacity() == 0,
+            "verif canary: a constant allocation is aliased with a mutable static"
+        );
+    }
+
     /// E7: the tail of `Suspender::cancel` after the (non-returning) stack switch.
     pub fn after_cancel_switch() {}
 
